@@ -56,7 +56,8 @@ package absnfs
 //@ ensures [inv-paths] fmPaths(fm)
 //@ ensures [inv-ids] fmIds(fm)
 //@ ensures [inv-rev] fmRev(fm)
-//@ ensures [live] has(fm.handles, result) && fm.handles[result] == f
+// (C04: the handle serves the object most recently looked up under the path, not an older record for it)
+//@ ensures [live] {C05, C04} has(fm.handles, result) && fm.handles[result] == f
 //@ ensures [one-per-path] nodePath(f) != "" && old(has(fm.pathHandles, nodePath(f))) ==> result == old(fm.pathHandles[nodePath(f)])
 //@ ensures [bounded] len(fm.handles) <= maxEff(fm)
 //@ ensures [unlocked] held(fm.RWMutex) == 0
